@@ -179,17 +179,27 @@ def Z0(K):
             row("PS", K, pos=False, capacity=1, first=2), row("PS", K, pos=False), row("S1", K, pos=False, p=0.5)]
 
 
+def Z0q(K):
+    """time-zero rows on ordinary nodes (no slotted / PS node, which run into F11): arrivals, service starts, pre-emptions,
+    blockages and reneges may all happen at exactly t = 0"""
+    return [row("Q1", K, c=1, pos=False), row("Q1", K, c=2, pos=False, first=2), row("S1", K, pos=False, p=0.5), row("T2", K, pos=False, first=2),
+            row("P1", K - 1, c=1, pre="resume", pos=False), row("RN", K, pos=False, first=2), row("BK", K - 1, kind="sym", pos=False)]
+
+
 # C01 ------------------------------------------------------------------------------------------------
 prop("C01", mons=["C01"],
      quick=lambda: plain(5) + blocking(5) + priorities(5) + preemption(5) + schedules(5) + slotted(4) + reneging(5) + baulking(4)
      + classchange(5) + routing(5) + ps(5) + with_ties([row("Q1", 5, c=1), row("T2", 5), row("L2", 4, first=[2, 2], burst=1), row("RN", 5)])
      + combo_rows(5, include={"renege", "jockey", "jockeyfull", "renege2", "pre_reroute", "sc_reroute", "batch", "baulk", "ccwait", "ps", "slcap", "selfloop", "loop", "jsq"})
-     + tie_combo_rows(4, {"renege", "jockeyfull", "pre_reroute", "batch", "sc_reroute"}),
+     + tie_combo_rows(4, {"renege", "jockeyfull", "pre_reroute", "batch", "sc_reroute"})
+     + Z0q(4),
      thorough=lambda: bump(plain(5) + blocking(5) + priorities(5) + preemption(5) + schedules(5) + slotted(4) + reneging(5) + baulking(4)
                            + classchange(5) + routing(5) + ps(5), 1)
      + with_ties(plain(5) + blocking(5) + priorities(5) + preemption(5) + schedules(5) + reneging(5) + routing(5) + ps(5), -1)
      + combo_rows(6)
-     + tie_combo_rows(5, {"renege", "jockey", "jockeyfull", "renege2", "pre_reroute", "batch", "sc_reroute", "baulk", "slcap"}),
+     + tie_combo_rows(5, {"renege", "jockey", "jockeyfull", "renege2", "pre_reroute", "batch", "sc_reroute", "baulk", "slcap"})
+     + combo_rows(6, exclude=("c2", "cinf", "ps", "sl", "slcap", "offset"), extra={"c1": 2}, cap=1500)
+     + Z0q(6),
      vacuity=["c01_in_nodes", "c01_at_exit"],
      functions=CORE + ["Node.renege", "Node.reroute", "Node.preempt", "Node.change_priority_queue", "PSNode.*", "Node.slotted_service", "Node.change_shift"])
 
@@ -217,17 +227,21 @@ prop("C03", mons=["C03"],
      + classchange(5) + routing(5) + [row("SC", 6, pre="reroute", blocked=True), row("SC", 7, pre="resume", blocked=True, burst=3), row("SC", 7, pre="restart", blocked=True, burst=3),
                                       row("T2", 6, prio=True, c1=2, first=2, burst=1)] + with_ties([row("T2", 5), row("RN", 5, jockey=True)])
      + combo_rows(5, include={"pre_reroute", "sc_reroute", "sc_resume", "renege", "jockey", "baulk", "block", "ccafter", "jsq", "slcap"})
-     + with_ties(preemption(5), -1) + tie_combo_rows(4, {"pre_reroute", "sc_reroute", "renege", "jockey"}),
+     + with_ties(preemption(5), -1) + tie_combo_rows(4, {"pre_reroute", "sc_reroute", "renege", "jockey"})
+     + Z0q(4),
      thorough=lambda: bump(plain(5) + blocking(5) + preemption(5) + schedules(5) + reneging(5) + baulking(4) + classchange(5) + routing(5), 1)
      + with_ties(blocking(5) + preemption(5) + reneging(5) + routing(5), -1)
      + combo_rows(6)
-     + with_ties(preemption(5), 0) + tie_combo_rows(5, {"pre_reroute", "sc_reroute", "sc_resume", "renege", "jockey", "jockeyfull", "baulk", "block"}),
+     + with_ties(preemption(5), 0) + tie_combo_rows(5, {"pre_reroute", "sc_reroute", "sc_resume", "renege", "jockey", "jockeyfull", "baulk", "block"})
+     + Z0q(6),
      vacuity=["c03_customers", "c03_chained"],
      functions=CORE + ["Node.write_individual_record", "Node.write_interruption_record", "Node.write_reneging_record", "Node.write_baulking_or_rejection_record", "Node.reset_individual_attributes", "Node.reroute"])
 
 # C04 ------------------------------------------------------------------------------------------------
 def c04_extra(K):
-    return [row("SC", K + 4, pre="resume", blocked=True, burst=3), row("SC", K + 4, pre="restart", blocked=True, burst=3), row("SC", K, pre="resume", values=[2, 2], bounds=[1, 3], first=2),
+    return [dict(row("Q1", K, c=2, pos=False, first=2), mons=["C04", "C04Util"]), dict(row("Q1", K, c=1, pos=False), mons=["C04", "C04Util"]),
+            dict(row("S1", K, c=2, cap_=1, pos=False, p=0.5), mons=["C04", "C04Util"]),
+            row("SC", K + 4, pre="resume", blocked=True, burst=3), row("SC", K + 4, pre="restart", blocked=True, burst=3), row("SC", K, pre="resume", values=[2, 2], bounds=[1, 3], first=2),
             row("SC", K, pre="restart", values=[2, 1, 2], bounds=[1, 2, 3], first=3), row("SC", K + 2, blocked=True, burst=3), row("T2", K + 1, prio=True, c1=2, first=2, burst=1)]
 
 
@@ -235,11 +249,13 @@ prop("C04", mons=["C04"],
      quick=lambda: [row("Q1", 6, c=1), row("Q1", 5, c=2), row("Q1", 5, c=2, first=3)] + blocking(5) + priorities(5) + preemption(5) + schedules(5) + c04_extra(5)
      + [dict(r, mons=["C04", "C04Util"]) for r in [row("Q1", 5, c=2), row("T2", 5), row("SC", 5), row("P1", 5, c=1), row("L2", 4, first=[2, 2], burst=1)]]
      + with_ties([row("Q1", 5, c=2), row("T2", 5)])
-     + combo_rows(5, include={"c2", "sc", "sc_resume", "sc_restart", "sc_resample", "sc_reroute", "pre_resume", "pre_restart", "pre_reroute", "block"}, exclude=("ps", "cinf", "sl", "slcap"), allow=_F13),
+     + combo_rows(5, include={"c2", "sc", "sc_resume", "sc_restart", "sc_resample", "sc_reroute", "pre_resume", "pre_restart", "pre_reroute", "block"}, exclude=("ps", "cinf", "sl", "slcap"), allow=_F13)
+     + combo_rows(5, include={"sc_resume", "sc_restart", "pre_resume", "pre_restart", "pre_reroute", "block"}, exclude=("c2", "cinf", "ps", "sl", "slcap", "offset"), extra={"c1": 2}, cap=250, allow=_F13),
      thorough=lambda: bump([row("Q1", 6, c=1), row("Q1", 5, c=2), row("Q1", 5, c=2, first=3)] + blocking(5) + priorities(5) + preemption(5) + schedules(5), 1)
      + [dict(r, mons=["C04", "C04Util"]) for r in [row("Q1", 6, c=2), row("T2", 6), row("SC", 6), row("SC", 6, offset=0.5, first=2), row("P1", 6, c=1), row("L2", 5, first=[2, 2], burst=1), row("S1", 6, c=2, cap_=1, first=2)]]
      + with_ties(blocking(5) + preemption(5) + schedules(5), -1)
-     + combo_rows(6, exclude=("ps", "cinf", "sl", "slcap"), allow=_F13),
+     + combo_rows(6, exclude=("ps", "cinf", "sl", "slcap"), allow=_F13)
+     + combo_rows(6, exclude=("c2", "cinf", "ps", "sl", "slcap", "offset"), extra={"c1": 2}, cap=2000, allow=_F13),
      vacuity=["c04_in_service", "c04_kept_server", "c04_interval_pairs", "c04_util_checked"],
      functions=["Node.attach_server", "Node.detatch_server", "Node.find_free_server", "Node.preempt", "Node.take_servers_off_duty", "Node.kill_server", "Node.add_new_servers", "Node.wrap_up_servers", "Node.find_server_utilisation"] + CORE)
 
@@ -251,12 +267,16 @@ prop("C05", mons=["C05"],
         row("SC", 5, pre="resample", values=[3, 0, 3], bounds=[1, 2, 3], first=3), row("SC", 8, pre="restart", blocked=True, burst=3)]
      + with_ties([row("Q1", 5, c=2), row("T2", 5), row("SC", 5, pre="resume")])
      + combo_rows(5, include={"c2", "sc", "sc_resume", "sc_restart", "sc_resample", "pre_resume", "pre_restart", "renege", "ccwait", "lifo", "siro", "block"}, exclude=("ps", "cinf", "sl", "slcap"))
-     + tie_combo_rows(4, {"sc_resume", "renege", "pre_resume", "block"}),
+     + tie_combo_rows(4, {"sc_resume", "renege", "pre_resume", "block"})
+     + combo_rows(5, include={"sc_resume", "sc_restart", "pre_resume", "pre_restart", "renege", "lifo", "siro", "block", "ccwait"}, exclude=("c2", "cinf", "ps", "sl", "slcap", "offset"), extra={"c1": 2}, cap=250)
+     + Z0q(4),
      thorough=lambda: bump(plain(5) + blocking(5) + priorities(5) + preemption(5) + schedules(5) + reneging(5) + classchange(5), 1)
      + [row("Q1", 6, c=1, discipline="SIRO", first=2), row("RN", 5, blockedinto=True)]
      + with_ties(plain(5) + blocking(5) + preemption(5) + schedules(5) + reneging(5), -1)
      + combo_rows(6, exclude=("ps", "cinf", "sl", "slcap"))
-     + tie_combo_rows(5, {"c2", "sc", "sc_resume", "sc_restart", "pre_resume", "pre_restart", "renege", "block", "lifo"}, exclude=("ps", "cinf", "sl", "slcap")),
+     + tie_combo_rows(5, {"c2", "sc", "sc_resume", "sc_restart", "pre_resume", "pre_restart", "renege", "block", "lifo"}, exclude=("ps", "cinf", "sl", "slcap"))
+     + combo_rows(6, exclude=("c2", "cinf", "ps", "sl", "slcap", "offset"), extra={"c1": 2}, cap=2000)
+     + Z0q(6),
      vacuity=["c05_zero_wait", "c05_waiting_seen", "c05_start_on_freed_server"],
      functions=["Node.begin_service_if_possible_accept", "Node.begin_service_if_possible_release", "Node.begin_service_if_possible_change_shift", "Node.begin_interrupted_individuals_service", "Node.choose_next_customer", "Node.change_customer_class_while_waiting"] + CORE)
 
@@ -271,9 +291,11 @@ def cap_rows(K):
 
 prop("C06", mons=["C06"],
      quick=lambda: cap_rows(5) + with_ties(cap_rows(5)[:6], -1)
-     + combo_rows(5, include={"cap1", "syscap", "batch", "block1"}, exclude=("sc", "sc_resume", "sc_restart", "sc_resample", "sc_reroute", "sl", "slcap", "pre_reroute", "jockey")),
+     + combo_rows(5, include={"cap1", "syscap", "batch", "block1"}, exclude=("sc", "sc_resume", "sc_restart", "sc_resample", "sc_reroute", "sl", "slcap", "pre_reroute", "jockey"))
+     + Z0q(4),
      thorough=lambda: bump(cap_rows(5), 1) + with_ties(cap_rows(5), 0)
-     + combo_rows(6, include={"cap1", "syscap", "batch", "block1", "block", "selfloop", "loop"}, exclude=("sc", "sc_resume", "sc_restart", "sc_resample", "sc_reroute", "sl", "slcap", "pre_reroute", "jockey")),
+     + combo_rows(6, include={"cap1", "syscap", "batch", "block1", "block", "selfloop", "loop"}, exclude=("sc", "sc_resume", "sc_restart", "sc_resample", "sc_reroute", "sl", "slcap", "pre_reroute", "jockey"))
+     + Z0q(6),
      vacuity=["c06_rejections", "c06_admitted"],
      functions=["ArrivalNode.release_individual", "Simulation.number_of_individuals", "Node.__init__ (node_capacity)", "Node.finish_service", "ArrivalNode.have_event", "ArrivalNode.batch_size"])
 
@@ -282,7 +304,7 @@ def c07_rows(K):
     return blocking(K) + [row("T2", K, prio=True), row("T2", K, c1=3, c2=2, caps=["inf", 0], first=3, burst=1), row("SC", K + 1, blocked=True),
                           row("L2", K, c=[2, 1], caps=[0, 0], first=[2, 1], burst=1), row("RN", K - 1, blockedinto=True), row("CCa", K, nodes=2, blocking=True),
                           row("L2", K - 1, classes=2), row("T2", K + 1, prio=True, c1=3, first=2, burst=1), row("T2", K + 1, prio=True, c1=2, c2=1, first=3, burst=1),
-                          row("RN", K, blockedinto=True, first=2, burst=2), row("FK", K + 1, firstA=2, firstB=2)] + ([row("FK", K + 1)] if K > 5 else [])
+                          row("RN", K, blockedinto=True, first=2, burst=2), row("FK", K + 1, firstA=2, firstB=2), row("SCD", K + 2, burst=2), row("SCD", K + 2, burst=2, c1=2, first=2)] + ([row("FK", K + 1)] if K > 5 else [])
 
 
 prop("C07", mons=["C07"],
@@ -291,7 +313,8 @@ prop("C07", mons=["C07"],
      + [dict(row("RN", 5, blockedinto=True, c=2, cap2=2, first=3, first1=2, burst=1), ties="all")] + tie_combo_rows(4, {"block", "block1"}, skip=_BLOCKPRE),
      thorough=lambda: bump(c07_rows(5), 1) + with_ties(c07_rows(5), -1)
      + combo_rows(6, include={"block", "block1", "selfloop", "loop"}, skip=_BLOCKPRE)
-     + [dict(row("RN", 6, blockedinto=True, c=2, cap2=2, first=3, first1=2, burst=1), ties="all")] + tie_combo_rows(5, {"block", "block1", "selfloop", "loop"}, skip=_BLOCKPRE),
+     + [dict(row("RN", 6, blockedinto=True, c=2, cap2=2, first=3, first1=2, burst=1), ties="all")] + tie_combo_rows(5, {"block", "block1", "selfloop", "loop"}, skip=_BLOCKPRE)
+     + combo_rows(6, include={"block", "block1", "selfloop", "loop"}, skip=_BLOCKPRE, exclude=("c2", "cinf", "ps", "sl", "slcap", "offset"), extra={"c1": 2}, cap=2000),
      vacuity=["c07_blockages", "c07_unblockings", "c07_blocked_seen"],
      functions=["Node.finish_service", "Node.block_individual", "Node.release", "Node.release_blocked_individual", "Node.update_next_end_service_with_server", "Node.renege"])
 
@@ -302,14 +325,21 @@ def c08_rows(K):
             row("P1", K - 1, c=1, discipline="SIRO", first=2)] + preemption(K) + [row("SC", K, first=3), row("SC", K, prio=True, pre="resume"), row("SC", K - 1, prio=True),
             row("T2", K, c1=3, first=3, burst=1), row("T2", K - 1, prio=True), row("CCw", K - 1, burst=2), row("CCw", K - 1, prio=True, burst=2), row("SL", K - 1, first=3),
             row("RN", K, c=1, first=3), row("SC", K, discipline="LIFO", first=4), row("SC", K, discipline="LIFO", first=3, pre="resume"), row("SC", K, discipline="SIRO", first=3),
-            row("T2", K + 1, prio=True, c1=1, first=3, burst=1), row("SC", K, discipline="LIFO", values=[0, 1], bounds=[1, 4], first=3)]
+            row("T2", K + 1, prio=True, c1=1, first=3, burst=1), row("SC", K, discipline="LIFO", values=[0, 1], bounds=[1, 4], first=3),
+            row("GEN", K, sched=["sl", False, False], classes=2, prio=True, discipline="LIFO", burst=1, first=2), row("GEN", K, sched=["sl", False, False], classes=2, prio=True, discipline="SIRO", burst=1, first=2),
+            row("GEN", K, sched=["sl", True, "resume"], classes=2, prio=True, discipline="LIFO", burst=1, first=3), row("GEN", K, sched=["sl", False, False], discipline="LIFO", burst=2, first=3),
+            row("GEN", K, sched=["sl", False, False], classes=2, prio=True, burst=1, first=3)]
 
 
 prop("C08", mons=["C08"],
      quick=lambda: c08_rows(5) + with_ties([row("Q1", 5, c=1, first=3), row("P1", 5, c=1)])
-     + combo_rows(5, include={"lifo", "siro", "prio", "pre_resume", "pre_restart", "pre_resample", "pre_reroute"}, exclude=("ps", "cinf")),
+     + combo_rows(5, include={"lifo", "siro", "prio", "pre_resume", "pre_restart", "pre_resample", "pre_reroute"}, exclude=("ps", "cinf"))
+     + combo_rows(5, include={"lifo", "siro", "prio", "pre_resume", "pre_restart", "pre_resample", "pre_reroute"}, exclude=("c2", "cinf", "ps", "sl", "slcap", "offset"), extra={"c1": 2}, cap=250)
+     + Z0q(4),
      thorough=lambda: bump(c08_rows(5), 1) + with_ties(c08_rows(5), -1)
-     + combo_rows(6, exclude=("ps", "cinf")),
+     + combo_rows(6, exclude=("ps", "cinf"))
+     + combo_rows(6, exclude=("c2", "cinf", "ps", "sl", "slcap", "offset"), extra={"c1": 2}, cap=2000)
+     + Z0q(6),
      vacuity=["c08_choices", "c08_starts", "c08_real_choice", "c08_pairs"],
      functions=["Node.choose_next_customer", "disciplines.FIFO", "disciplines.LIFO", "disciplines.SIRO", "Node.begin_service_if_possible_*", "Node.slotted_service", "Node.decide_preempt"])
 
@@ -347,9 +377,11 @@ def c10_validity():
 
 prop("C10", mons=["C10"],
      quick=lambda: c10_rows(5) + c10_validity() + with_ties([row("Q1", 5, c=2, batch=[0, 1, 2])])
-     + combo_rows(5, include={"batch", "c2", "cinf", "prio", "sc", "block", "lifo", "siro", "cap1"}, exclude=("pre_resume", "pre_restart", "pre_resample", "pre_reroute", "sc_resume", "sc_restart", "sc_resample", "sc_reroute", "sl", "slcap", "ccafter", "ccwait", "ps")),
+     + combo_rows(5, include={"batch", "c2", "cinf", "prio", "sc", "block", "lifo", "siro", "cap1"}, exclude=("pre_resume", "pre_restart", "pre_resample", "pre_reroute", "sc_resume", "sc_restart", "sc_resample", "sc_reroute", "sl", "slcap", "ccafter", "ccwait", "ps"))
+     + [r for r in Z0q(4) if r["cfg"][0] != "P1"],
      thorough=lambda: bump(c10_rows(5), 1) + c10_validity() + with_ties(c10_rows(5), -1)
-     + combo_rows(6, exclude=("pre_resume", "pre_restart", "pre_resample", "pre_reroute", "sc_resume", "sc_restart", "sc_resample", "sc_reroute", "sl", "slcap", "ccafter", "ccwait", "ps")),
+     + combo_rows(6, exclude=("pre_resume", "pre_restart", "pre_resample", "pre_reroute", "sc_resume", "sc_restart", "sc_resample", "sc_reroute", "sl", "slcap", "ccafter", "ccwait", "ps"))
+     + [r for r in Z0q(6) if r["cfg"][0] != "P1"],
      vacuity=["c10_arrival_events", "c10_services", "c10_nonunit_batches", "c10_validity_raised", "c10_validity_samples"],
      functions=["ArrivalNode.have_event", "ArrivalNode.inter_arrival", "ArrivalNode.batch_size", "ArrivalNode.initialise_event_dates_dict", "Node.get_service_time", "Distribution._sample"])
 
@@ -362,10 +394,12 @@ def c11_rows(K):
 prop("C11", mons=["C11"],
      quick=lambda: c11_rows(5) + with_ties([row("P1", 5, c=1, pre="resume"), row("P1", 4, c=2, pre="restart")])
      + combo_rows(5, include={"pre_resume", "pre_restart", "pre_resample", "pre_reroute"}, exclude=("ccafter", "sc_resume", "sc_restart", "sc_resample", "sc_reroute"), skip=_BLOCKPRE)
-     + [row("P1", 6, c=2, pre="resume", discipline="LIFO", first=2), row("P1", 4, c=2, pre="resample", discipline="SIRO", first=2)] + [r for r in combo_rows(5, include={"pre_resume", "pre_restart", "pre_resample", "pre_reroute"}, exclude=("ccafter", "sc_resume", "sc_restart", "sc_resample", "sc_reroute", "c2", "cinf", "ps", "sc", "sl", "slcap", "offset"), skip=_BLOCKPRE, extra={"c1": 2}) if r["cfg"][1].get("discipline") or r["cfg"][1].get("ccwait") or r["cfg"][1].get("batch")],
+     + [row("P1", 6, c=2, pre="resume", discipline="LIFO", first=2), row("P1", 4, c=2, pre="resample", discipline="SIRO", first=2)] + [r for r in combo_rows(5, include={"pre_resume", "pre_restart", "pre_resample", "pre_reroute"}, exclude=("ccafter", "sc_resume", "sc_restart", "sc_resample", "sc_reroute", "c2", "cinf", "ps", "sc", "sl", "slcap", "offset"), skip=_BLOCKPRE, extra={"c1": 2}) if r["cfg"][1].get("discipline") or r["cfg"][1].get("ccwait") or r["cfg"][1].get("batch")]
+     + Z0q(4),
      thorough=lambda: bump(c11_rows(5), 1) + with_ties(c11_rows(5), -1)
      + combo_rows(6, include={"pre_resume", "pre_restart", "pre_resample", "pre_reroute"}, exclude=("ccafter", "sc_resume", "sc_restart", "sc_resample", "sc_reroute"), skip=_BLOCKPRE)
-     + [row("P1", 6, c=2, pre="resume", discipline="LIFO", first=2), row("P1", 6, c=2, pre="restart", discipline="LIFO", first=2), row("P1", 5, c=2, pre="resample", discipline="SIRO", first=2)] + [r for r in combo_rows(5, include={"pre_resume", "pre_restart", "pre_resample", "pre_reroute"}, exclude=("ccafter", "sc_resume", "sc_restart", "sc_resample", "sc_reroute", "c2", "cinf", "ps", "sc", "sl", "slcap", "offset"), skip=_BLOCKPRE, extra={"c1": 2}) if r["cfg"][1].get("discipline") or r["cfg"][1].get("ccwait") or r["cfg"][1].get("batch")],
+     + [row("P1", 6, c=2, pre="resume", discipline="LIFO", first=2), row("P1", 6, c=2, pre="restart", discipline="LIFO", first=2), row("P1", 5, c=2, pre="resample", discipline="SIRO", first=2)] + [r for r in combo_rows(5, include={"pre_resume", "pre_restart", "pre_resample", "pre_reroute"}, exclude=("ccafter", "sc_resume", "sc_restart", "sc_resample", "sc_reroute", "c2", "cinf", "ps", "sc", "sl", "slcap", "offset"), skip=_BLOCKPRE, extra={"c1": 2}) if r["cfg"][1].get("discipline") or r["cfg"][1].get("ccwait") or r["cfg"][1].get("batch")]
+     + Z0q(6),
      vacuity=["c11_preemptions", "c11_victim_choice", "c11_wait_and_serve", "c11_resume_completed", "c11_restart_completed", "c11_resample_completed"],
      functions=["Node.decide_preempt", "Node.preempt", "Node.give_individual_a_service_time", "Node.give_service_time_after_preemption", "Node.reroute"])
 
@@ -401,10 +435,12 @@ def c13_rows(K):
 prop("C13", mons=["C13"],
      quick=lambda: c13_rows(5) + with_ties([row("RN", 5), row("RN", 5, jockey=True), row("BK", 4, kind="sym")])
      + combo_rows(5, include={"renege", "jockey", "jockeyfull", "renege2", "baulk"}, allow=_F10)
-     + tie_combo_rows(4, {"renege", "jockey"}, allow=_F10),
+     + tie_combo_rows(4, {"renege", "jockey"}, allow=_F10)
+     + Z0q(4),
      thorough=lambda: bump(c13_rows(5), 1) + with_ties(c13_rows(5), -1)
      + combo_rows(6, include={"renege", "jockey", "jockeyfull", "renege2", "baulk"}, allow=_F10)
-     + tie_combo_rows(5, {"renege", "jockey", "jockeyfull", "renege2", "baulk"}, allow=_F10),
+     + tie_combo_rows(5, {"renege", "jockey", "jockeyfull", "renege2", "baulk"}, allow=_F10)
+     + Z0q(6),
      vacuity=["c13_reneges", "c13_jockeys", "c13_waiting_with_patience", "c13_baulks", "c13_joins"],
      functions=["Node.get_reneging_date", "Node.update_next_renege_time", "Node.decide_next_event", "Node.renege", "ArrivalNode.decide_baulk"])
 
@@ -456,7 +492,7 @@ prop("C16", mons=[],
      + [crow("custom:pause_resume", 3, ties="forced", base="Q1", params={"c": 1})],
      thorough=lambda: [crow("custom:pause_resume", k, ties="forced", base=b, params=p) for b, p, k in C16_BASES]
      + [crow("custom:pause_resume", 9, ties="forced", base=b, params=p) for b, p in C16_DEEP if b != "SC"] + [crow("custom:pause_resume", 4, ties="forced", base="Q1", params={"c": 1})]
-     + [crow("custom:pause_resume", k - 1, ties="forced", base=b, params=p, splits=2) for b, p, k in C16_BASES if b in ("Q1", "T2", "P1", "RN", "L2") or p.get("router") == "cycle"],
+     + [crow("custom:pause_resume", k - 1, ties="forced", base=b, params=p, splits=2) for b, p, k in C16_BASES if b in ("Q1", "T2", "P1", "RN")],
      vacuity=["c16_pairs", "c16_records_compared", "c16_utilisation_compared"],
      functions=["Simulation.simulate_until_max_time (re-entry)", "Simulation.wrap_up_servers", "Node.wrap_up_servers", "Node.find_server_utilisation"],
      assumptions=["tie-free runs only (the property excludes coinciding events): ties=forced"])
